@@ -52,6 +52,29 @@ func binval(rng *rand.Rand, n int) string {
 // one random write command (all the write kinds that need no clock)
 func randWrite(rng *rand.Rand, big bool) []string {
 	k, id := pick(rng, keyAlpha), pick(rng, idAlpha)
+	if rng.Intn(5) == 0 {
+		// the other record kinds a log can hold: FLUSHDB, channels, deadlines, RENAMENX, records written by a script
+		ch := "ch" + strconv.Itoa(rng.Intn(3))
+		switch rng.Intn(9) {
+		case 0:
+			return []string{"FLUSHDB"}
+		case 1, 2:
+			return []string{"SETCHAN", ch, "NEARBY", k, "FENCE", "POINT", strconv.Itoa(rng.Intn(80)), strconv.Itoa(rng.Intn(170)), "100000"}
+		case 3:
+			return []string{"DELCHAN", ch}
+		case 4:
+			return []string{"PDELCHAN", pick(rng, []string{"ch*", "ch1*", "*2"})}
+		case 5:
+			return []string{"EXPIRE", k, id, strconv.Itoa(50000 + rng.Intn(1000))}
+		case 6:
+			return []string{"PERSIST", k, id}
+		case 7:
+			return []string{"RENAMENX", k, pick(rng, keyAlpha)}
+		default:
+			return []string{"EVAL", "tile38.call('SET', KEYS[1], ARGV[1], 'POINT', 1, 2) return tile38.call('FSET', KEYS[1], ARGV[1], 'f1', ARGV[2])",
+				"1", k, id, strconv.Itoa(rng.Intn(100))}
+		}
+	}
 	switch rng.Intn(14) {
 	case 0, 1, 2, 3:
 		n := rng.Intn(12)
@@ -92,6 +115,7 @@ func dump(c *srv.Conn) string {
 		s := c.MustDo("SCAN", k, "LIMIT", "1000000")
 		sb.WriteString(strconv.Quote(k) + "=" + s.String() + "\n")
 	}
+	sb.WriteString(hooksDump(c)) // hooks and channels are replayed from the log too (directed.go)
 	return sb.String()
 }
 
@@ -388,10 +412,10 @@ func short(b []byte) string {
 }
 
 func runC04(r *hx.Result, cfg hx.Config) {
-	r.Rule = "parser: byte strings (valid RESP encodings, 1-3 mutations of them incl. negative / 2^63-range length fields, telnet and native lines, raw alphabet soup) through redcon.ReadNextCommand and the model read_next. loader: logs written by a live server from random SET STRING/POINT/OBJECT/FIELD, FSET, JSET, DEL, PDEL, DROP, RENAME with binary keys/ids/values (CR LF * $ NUL, 70 kB values), cut at every offset (short logs) or sampled offsets (long logs), with zero runs at command boundaries; the real server is started on the file, then one more write, SIGKILL, second start. non-trivial = distinct (log, offset, zero layout) whose cut is strictly inside a command and at least one complete command precedes it."
+	r.Rule = "parser: byte strings (valid RESP encodings, 1-3 mutations of them incl. negative / 2^63-range length fields, telnet and native lines, raw alphabet soup) through redcon.ReadNextCommand and the model read_next. loader: logs written by a live server from random SET STRING/POINT/OBJECT/FIELD, FSET, JSET, DEL, PDEL, DROP, RENAME, RENAMENX, FLUSHDB, SETCHAN/DELCHAN/PDELCHAN, EXPIRE/PERSIST and EVAL scripts with binary keys/ids/values (CR LF * $ NUL, 70 kB values), cut at every offset (short logs) or sampled offsets (long logs), with zero runs at command boundaries (in big logs also reaching the end of a 0xFFFF read); directed logs first: NULs at read boundaries, every loggable command kind around a FLUSHDB, zero padding reaching the end of a read / at the tail of a 215 kB log; the real server is started on the file, then one more write, SIGKILL, second start. non-trivial = distinct (log, offset, zero layout) whose cut is strictly inside a command and at least one complete command precedes it."
 	r.Assumptions = []string{
 		"os.File.Read returns the file in successive chunks (the model's load_chunks is proved equal to one-shot parsing for every chunking, theorem c04_chunked_eq_whole)",
-		"command execution during replay is outside this property: the expected dataset is that of a reference server fed the model's command list over a client connection",
+		"the effect of replayed commands on the dataset is that of a reference server fed the model's command list over a client connection; their effect on the loader's position is decided by theorem c04_replay_position_untouched over the regenerated effects table (synchronous in-package calls)",
 	}
 	rng := rand.New(rand.NewSource(cfg.Seed))
 	drv, err := model.Start("resp")
@@ -508,6 +532,14 @@ func runC04(r *hx.Result, cfg hx.Config) {
 				k = g.ends[rng.Intn(len(g.ends))]
 				z[-1] = 1 // keep the zero run that follows a cut at a boundary
 			}
+			if sp.big && i%2 == 0 {
+				// zero runs that reach the end of a 0xFFFF read (and a little beyond), where the carry-over buffer is in use
+				if i%4 == 0 {
+					k = len(g.bytes)
+					z[len(g.cmds)] = 1 + rng.Intn(40)
+				}
+				z = zerosToReadEnd(g, k, z, func(m int) int { return []int{-1, 0, 0, 1, 2, 300, 5000}[rng.Intn(7)] })
+			}
 			cases = append(cases, buildCase(g, k, z, fmt.Sprintf("%s cut@%d zeros=%v", g.name, k, z)))
 		}
 	}
@@ -558,12 +590,50 @@ func runC04(r *hx.Result, cfg hx.Config) {
 			directed = append(directed, buildCase(g, k, nil, fmt.Sprintf("%s(NULs at read boundaries) cut@%d", g.name, k)))
 		}
 	}
+	// directed logs holding every loggable command kind (FLUSHDB in the first read) with torn tails, and
+	// logs larger than one read whose zero padding reaches the end of a read (directed.go)
+	for _, big := range []bool{false, true} {
+		name, max := "kinds-small", 45
+		if big {
+			name, max = "kinds-big", 14
+		}
+		g, err := kindsLog(cfg.Work, name, big)
+		if err != nil {
+			panic(err)
+		}
+		if err := g.refDumps(cfg.Work); err != nil {
+			panic(err)
+		}
+		r.Dist("log:directed-kinds")
+		directed = append(directed, kindsCases(g, rng, max)...)
+	}
+	{
+		g, err := paddedLog("padded")
+		if err != nil {
+			panic(err)
+		}
+		if err := g.refDumps(cfg.Work); err != nil {
+			panic(err)
+		}
+		r.Dist("log:directed-padded")
+		directed = append(directed, paddedCases(g)...)
+	}
 	cases = append(directed, cases...)
 
 	var mu sync.Mutex
 	var wg sync.WaitGroup
 	ch := make(chan int)
 	workers := 8
+	// the model's `load` of a 200 kB file takes a few tenths of a second: several driver processes
+	ldrv := []*model.Driver{drv}
+	for len(ldrv) < 4 {
+		d, err := model.Start("resp")
+		if err != nil {
+			panic(err)
+		}
+		defer d.Close()
+		ldrv = append(ldrv, d)
+	}
 	for w := 0; w < workers; w++ {
 		wg.Add(1)
 		go func(w int) {
@@ -571,7 +641,7 @@ func runC04(r *hx.Result, cfg hx.Config) {
 			for i := range ch {
 				fc := cases[i]
 				o := observe(filepath.Join(cfg.Work, fmt.Sprintf("c-%d-%d", w, i)), fc.file, fc.padAfter > 0)
-				m := drv.Ask("load", model.H(string(fc.file)))
+				m := ldrv[w%len(ldrv)].Ask("load", model.H(string(fc.file)))
 				mu.Lock()
 				judge(r, fc, o, m)
 				mu.Unlock()
